@@ -37,6 +37,8 @@ inductive Act where
   | hClose (c : Nat)
   | hDec (c : Nat)
   | check (seen : Bool)      -- the loop's test of `_requestStop`, with the value it observed
+  | acceptFail               -- `accept()` failed (out of descriptors, EMFILE): the pending connection stays in the
+                             --   listen queue, the listening socket stays readable and the loop comes round again
   | loopFail                 -- `waitInput` returned a negative value (select error / closed socket): the loop gives up
   | loopEnd                  -- the accept thread finishes: `Thread::begin` writes `_threadFinished` into the
                              --   `SockServerThread` object that the server owns and frees in its destructor
@@ -60,13 +62,15 @@ structure Cfg where
   bad : Bool               -- some thread used the server object (or what it owns) after its destruction
   threadDone : Bool        -- the accept thread has completely finished
   joins : Bool             -- does `~SocketServer` wait for the accept thread (`join`) before freeing it?
+  phantom : Nat            -- `serve()` calls made with a socket that is not a connection
+  skipsFailed : Bool       -- does the loop skip a failed `accept()` (`if (client.handle() < 0) continue;`)?
 
 def upd {α} (f : Nat → α) (k : Nat) (v : α) : Nat → α := fun j => if j = k then v else f j
 
-def init (n : Nat) (sequential : Bool) (joins : Bool := true) : Cfg :=
+def init (n : Nat) (sequential : Bool) (joins : Bool := true) (skipsFailed : Bool := true) : Cfg :=
   { n := n, sequential := sequential, reqStop := false, running := true, num := 0, apc := APc.idle,
     cpc := CPc.running, st := fun _ => 0, serveBegins := fun _ => 0, serveEnds := fun _ => 0, bad := false,
-    threadDone := false, joins := joins }
+    threadDone := false, joins := joins, phantom := 0, skipsFailed := skipsFailed }
 
 /-- may the handler steps of connection `c` be taken now? (concurrent: by its own thread, any time;
     sequential: only by the accept loop while it is serving `c` inline) -/
@@ -83,6 +87,7 @@ def enabled (s : Cfg) : Act → Bool
   | Act.hClose c => c < s.n && s.st c == 5 && handlerTurn s c
   | Act.hDec c => c < s.n && s.st c == 6 && handlerTurn s c
   | Act.check seen => s.apc == APc.idle && (!seen || s.reqStop)
+  | Act.acceptFail => s.apc == APc.idle
   | Act.loopFail => s.apc == APc.idle
   | Act.loopEnd => s.apc == APc.exited && !s.threadDone
   | Act.reqStop => s.cpc == CPc.running
@@ -114,6 +119,7 @@ def step (s : Cfg) (a : Act) : Cfg :=
   | Act.hClose c => { s with st := upd s.st c 6 }
   | Act.hDec c => { s with st := upd s.st c 7, num := s.num - 1, apc := if s.sequential then APc.idle else s.apc }
   | Act.check seen => if seen then { s with running := false, apc := APc.exited } else s
+  | Act.acceptFail => if s.skipsFailed then s else { s with phantom := s.phantom + 1 }   -- counted, served, un-counted
   | Act.loopFail => { s with running := false, apc := APc.exited }
   | Act.loopEnd => { s with threadDone := true }
   | Act.reqStop => { s with reqStop := true, cpc := CPc.waiting }
